@@ -1986,7 +1986,19 @@ class unyt_array(np.ndarray):
                             "cannot be multiplied, divided, subtracted or "
                             "added with data that has different units."
                         )
-                    inp1 = np.asarray(inp1, dtype=new_dtype) * conv
+                    if (
+                        unit_operator is _preserve_units
+                        and u0.dimensions is temperature
+                        and u0.base_offset == 0.0
+                        and u1.base_offset != 0.0
+                    ):
+                        # difference + point: the result is labelled with the
+                        # unit of the point (u1), so it is the difference that
+                        # has to be expressed on that scale
+                        dtype0 = np.dtype("f" + str(max(2, inp0.dtype.itemsize)))
+                        inp0 = np.asarray(inp0, dtype=dtype0) / dtype0.type(conv)
+                    else:
+                        inp1 = np.asarray(inp1, dtype=new_dtype) * conv
             if (
                 ufunc is floor_divide
                 and u0 is not u1
